@@ -57,7 +57,8 @@ impl<'a> IdentifierScope<'a> {
 enum RuntimeCheck {
     TypeId(usize), // Type ID to check against
     Literal(ast::Literal),
-    Variable(String),
+    /// Equality with the variable in this local slot (a pin, `&name`).
+    Variable(usize),
     Path(AccessPath),
 }
 
@@ -195,7 +196,6 @@ pub fn analyze_pattern(
 pub fn generate_pattern_code(
     codegen: &mut InstructionBuilder,
     program: &mut Program,
-    scopes: &[super::scopes::Scope],
     binding_sets: &[BindingSet],
     fail_addr: usize,
 ) -> Result<(), Error> {
@@ -251,13 +251,9 @@ pub fn generate_pattern_code(
                     }
                     codegen.add_instruction(Instruction::Equal(2));
                 }
-                RuntimeCheck::Variable(name) => {
+                RuntimeCheck::Variable(var_index) => {
                     generate_value_access(codegen, &requirement.path);
-                    let (_var_type, var_index) = super::scopes::lookup_variable(scopes, name, &[])
-                        .ok_or_else(|| Error::InternalError {
-                            message: format!("Pin variable '{}' not found in scope", name),
-                        })?;
-                    codegen.add_instruction(Instruction::Load(var_index));
+                    codegen.add_instruction(Instruction::Load(*var_index));
                     codegen.add_instruction(Instruction::Equal(2));
                 }
             }
@@ -432,15 +428,17 @@ fn analyze_match_pattern(
             // Pin pattern `&name`: check the value equals the value bound to `name` at runtime.
             // `name` must reference a binding already in scope — if it isn't found it's undefined,
             // e.g. a name bound by a *sibling* sub-pattern of the same compound pattern (`=[x, &x]`),
-            // which isn't visible yet.
-            let Some((var_type_id, _var_index)) = super::scopes::lookup_variable(scopes, name, &[])
+            // which isn't visible yet. The variable is resolved here, before the pattern's own
+            // binders are registered: a pin reads the variable in scope before the pattern, also
+            // when the pattern binds that name again (`x = 1, [2, 1] =[x, &x]`).
+            let Some((var_type_id, var_index)) = super::scopes::lookup_variable(scopes, name, &[])
             else {
                 return Err(Error::VariableUndefined(name.clone()));
             };
 
             let requirements = vec![Requirement {
                 path,
-                check: RuntimeCheck::Variable(name.clone()),
+                check: RuntimeCheck::Variable(var_index),
             }];
 
             // Narrow the type by intersecting with the pinned variable's type.
